@@ -67,12 +67,17 @@ def reg_json(r):
             "live": r["live"], "transport": r["transport"]}
 
 
-def msg_term(r):
+def pols_of(c):
+    return (c or {}).get("policies") or POLICIES
+
+
+def msg_term(r, pols=None):
+    pols = pols or POLICIES
     v4 = ":" not in PHANTOMS[r["phi"]]
     return "(mkMsg %s %s %s %s %s %s %s %s)" % (
         gnat(r["key"]), gnat(r["ci"]), gbool(r["transport"] == 0), gbool(r["source"] == "detector"),
-        glist([gbool(ph_blocked(PHANTOMS[r["phi"]], p)) for p in POLICIES]),
-        glist([gbool(cov_ok(r["ci"], p)) for p in POLICIES]),
+        glist([gbool(ph_blocked(PHANTOMS[r["phi"]], p)) for p in pols]),
+        glist([gbool(cov_ok(r["ci"], p)) for p in pols]),
         gbool((not r["prescanned"]) and v4), gbool(r["live"]))
 
 
@@ -229,6 +234,38 @@ def gen_sched_cases(ctx):
         i, j = rng.randrange(3, len(seq)), rng.randrange(3, len(seq))
         seq[i], seq[j] = seq[j], seq[i]
         cases.append(scenario([pa, pb2], sw1, sched_json(seq), tag="publish-window"))
+    # (7) reload as an operation: every interleaving of one ingest with two reloads, sampled for two ingests;
+    #     menu X toggles the covert allowlist but judges the registrations the same way in every section,
+    #     menu Y (the open finding) refuses one registration by covert address in one policy and by phantom in the other
+    menu_x = [{"covert_block": ["10.0.0.0/8"], "covert_allow": [], "phantom_block": ["192.0.2.64/26"]},
+              {"covert_block": [], "covert_allow": ["8.8.8.0/24", "192.0.2.0/24"], "phantom_block": ["192.0.2.64/26"]},
+              {"covert_block": ["10.0.0.0/8", "172.16.0.0/12"], "covert_allow": [], "phantom_block": ["192.0.2.64/26"]}]
+    menu_y = [{"covert_block": [], "covert_allow": [], "phantom_block": ["192.0.2.64/26"]},
+              {"covert_block": ["10.0.0.0/8"], "covert_allow": [], "phantom_block": []},
+              {"covert_block": [], "covert_allow": [], "phantom_block": ["192.0.2.64/26"]}]   # = entry 0 (the driver's manager owns entry 0's object)
+    rl = [{"kind": "reload", "reg": 0, "to": 1}, {"kind": "reload", "reg": 0, "to": 2}]
+    singles = [mk_reg(1, 1, 1, "detector", True, False), mk_reg(1, 1, 0, "api", True, False), mk_reg(1, 2, 1, "detector", True, False),
+               mk_reg(1, 0, 2, "api", False, False)]
+    for si, a in enumerate(singles):
+        ils = list(interleavings([5, 1, 1]))
+        if quick and si >= 2:
+            ils = rng.sample(ils, 14)
+        for il in ils:
+            cs = scenario([a], rl, sched_json(il), tag="reload-window")
+            cs["policies"] = menu_x
+            cases.append(cs)
+    for _ in range(120 if quick else 2000):
+        a, b = rng.choice(singles), rng.choice(singles)
+        b = dict(b, secret=rng.choice([1, 2]))
+        cs = scenario([a, b], rl, sched_json(random_interleaving(rng, [5, 5, 1, 1])), tag="reload-window")
+        cs["policies"] = menu_x
+        cases.append(cs)
+    ry = [{"kind": "reload", "reg": 0, "to": 1}, {"kind": "reload", "reg": 0, "to": 2}]
+    for a in (mk_reg(1, 2, 0, "detector", True, False), mk_reg(1, 2, 0, "api", True, False)):
+        for il in interleavings([5, 1, 1]):
+            cs = scenario([a], ry, sched_json(il), tag="reload-cross-section")
+            cs["policies"] = menu_y
+            cases.append(cs)
     for c in (ctx.replay or {}).get("sched_cases", []):
         cases.insert(0, c)
     return cases
@@ -237,7 +274,7 @@ def gen_sched_cases(ctx):
 # ---------------------------------------------------------------- observation -> Gallina
 def thread_term(c, th):
     if th["kind"] == "worker":
-        return "(TWorker %s W0)" % msg_term(c["regs"][th["reg"]])
+        return "(TWorker %s W0)" % msg_term(c["regs"][th["reg"]], pols_of(c))
     if th["kind"] == "sweeper":
         return "(TSweeper (S0 %s))" % gnat(max(1, th["to"]))
     if th["kind"] == "handler":
@@ -314,9 +351,10 @@ def enc_thread(c, th):
     if th["kind"] == "worker":
         r = c["regs"][th["reg"]]
         v4 = ":" not in PHANTOMS[r["phi"]]
-        out = [0, r["key"], r["ci"], int(r["transport"] == 0), int(r["source"] == "detector"), len(POLICIES)]
-        out += [int(ph_blocked(PHANTOMS[r["phi"]], p)) for p in POLICIES]
-        out += [int(cov_ok(r["ci"], p)) for p in POLICIES]
+        pols = pols_of(c)
+        out = [0, r["key"], r["ci"], int(r["transport"] == 0), int(r["source"] == "detector"), len(pols)]
+        out += [int(ph_blocked(PHANTOMS[r["phi"]], p)) for p in pols]
+        out += [int(cov_ok(r["ci"], p)) for p in pols]
         out += [int((not r["prescanned"]) and v4), int(r["live"])]
         return out
     if th["kind"] == "sweeper":
@@ -368,35 +406,65 @@ def enc_case(c, r, split):
     return bytes(_b(x) for x in out)
 
 # ---------------------------------------------------------------- direct oracle on the observables
-def passes0(r):
-    return r["transport"] == 0 and not (r["source"] != "detector" and ph_blocked(PHANTOMS[r["phi"]], POLICIES[0]))
+def passes0(r, pol=None):
+    pol = pol or POLICIES[0]
+    return r["transport"] == 0 and not (r["source"] != "detector" and ph_blocked(PHANTOMS[r["phi"]], pol))
 
 
-def admitted0(r):
+def admitted0(r, pe=None, pc=None, pl=None):
+    """admission with the policy of each section given separately (serial: all three the same)"""
+    pc = pc or POLICIES[0]
+    pl = pl or pc
     v4 = ":" not in PHANTOMS[r["phi"]]
     needs = (not r["prescanned"]) and v4
-    return cov_ok(r["ci"], POLICIES[0]) and (not needs or not r["live"]) and \
-        not (r["source"] == "detector" and ph_blocked(PHANTOMS[r["phi"]], POLICIES[0]))
+    return cov_ok(r["ci"], pc) and (not needs or not r["live"]) and \
+        not (r["source"] == "detector" and ph_blocked(PHANTOMS[r["phi"]], pl))
 
 
-def serial_outcomes(regs):
-    """the spec: every serial order of the ingests -> (final view, announcements) ; tiny by construction"""
+def _spec_run(regs, order, pol_of):
+    """the 10-line sequential specification; pol_of(w) -> (early, covert, late) policies of worker w's sections"""
+    table, ann = {}, []
+    for w in order:
+        r = regs[w]
+        pe, pc, pl = pol_of(w)
+        if not passes0(r, pe):
+            continue
+        k = r["key"]
+        if k in table:
+            table[k][2] += 1
+            continue
+        ok = admitted0(r, pe, pc, pl)
+        table[k] = [ok, r["ci"] if cov_ok(r["ci"], pc) else None, 1]
+        if ok:
+            ann.append((k, r["ci"]))
+    return (tuple(sorted((k, v[0], v[1], v[2]) for k, v in table.items())), tuple(sorted(ann)))
+
+
+def serial_outcomes(regs, reloads=(), pols=None):
+    """every serial order of the ingests AND the reloads (each ingest entirely under the policy in force) -> outcome"""
+    pols = pols or POLICIES
     outs = set()
+    ops = [("w", i) for i in range(len(regs))] + [("r", t) for t in reloads]
+    for perm in set(itertools.permutations(ops)):
+        cur, at = 0, {}
+        for kind, x in perm:
+            if kind == "r":
+                cur = x
+            else:
+                at[x] = cur
+        order = [x for kind, x in perm if kind == "w"]
+        outs.add(_spec_run(regs, order, lambda w: (pols[at[w]],) * 3))
+    return outs
+
+
+def section_mixed_outcomes(regs, reloads, pols):
+    """superset the model allows: every read section of every ingest under any policy of the history"""
+    outs = set()
+    idx = sorted({0} | set(reloads))
+    per = list(itertools.product(idx, repeat=3))
     for perm in itertools.permutations(range(len(regs))):
-        table, ann = {}, []
-        for w in perm:
-            r = regs[w]
-            if not passes0(r):
-                continue
-            k = r["key"]
-            if k in table:
-                table[k][2] += 1
-                continue
-            ok = admitted0(r)
-            table[k] = [ok, r["ci"] if cov_ok(r["ci"], POLICIES[0]) else None, 1]
-            if ok:
-                ann.append((k, r["ci"]))
-        outs.add((tuple(sorted((k, v[0], v[1], v[2]) for k, v in table.items())), tuple(sorted(ann))))
+        for assign in itertools.product(per, repeat=len(regs)):
+            outs.add(_spec_run(regs, perm, lambda w: tuple(pols[i] for i in assign[w])))
     return outs
 
 
@@ -446,13 +514,15 @@ def oracle(ctx, c, r, idx):
                              "not announced/validated in its current lifetime (step %d)" % (o, k, i), replay)
                 res = COVERTS[c["regs"][o]["ci"]][1] if 0 <= o < len(c["regs"]) else None
                 pols = [0] + [t["to"] for t in c["threads"] if t["kind"] == "reload"]
-                if res is None or cv != res or not any(cov_ok(c["regs"][o]["ci"], POLICIES[p]) for p in pols):
+                if res is None or cv != res or not any(cov_ok(c["regs"][o]["ci"], pols_of(c)[p]) for p in pols):
                     ctx.fail("seen-unchecked-covert", "a connection handler was given a registration whose covert address %r was "
                              "never checked against the covert policy (step %d; two ingests of one key raced)" % (cv, i), replay)
-    # terminal, sweeper-free, reload-free: the outcome must be one a serial order produces
+    # terminal, sweeper-free: the outcome must be one a serial order of the ingests and the reloads produces
     finished = all(any(ob["point"] in ("end", "disabled") and st["t"] == t for st, ob in zip(c["schedule"], r["steps"]))
                    for t in range(len(c["threads"])) if kinds[t] == "worker")
-    if finished and "sweeper" not in kinds and "reload" not in kinds and r["steps"]:
+    reloads = [t["to"] for t in c["threads"] if t["kind"] == "reload"]
+    reloads_done = all(any(st["t"] == t for st in c["schedule"]) for t in range(len(c["threads"])) if kinds[t] == "reload")
+    if finished and reloads_done and "sweeper" not in kinds and r["steps"]:
         final = r["steps"][-1]["snap"]
         view = []
         for e in final:
@@ -461,8 +531,18 @@ def oracle(ctx, c, r, idx):
                 view.append((e["key"], e["valid"], c["regs"][e["obj"]]["ci"] if cs else None, e["regcount"]))
         ann = sorted((key_of_obj(c, e["obj"]), c["regs"][e["obj"]]["ci"]) for e in r["events"] if e["kind"] == "announce" and e["obj"] >= 0)
         got = (tuple(sorted(view)), tuple(ann))
-        if got not in serial_outcomes(c["regs"]):
-            ctx.fail("not-serializable", "final table / announcements %r are not the outcome of any serial order of the same ingests" % (got,), replay)
+        if reloads:
+            ctx.cov["histogram"]["sched/serial-with-reload"] = ctx.cov["histogram"].get("sched/serial-with-reload", 0) + 1
+        if got not in serial_outcomes(c["regs"], reloads, pols_of(c)):
+            if not reloads:
+                ctx.fail("not-serializable", "final table / announcements %r are not the outcome of any serial order of the same ingests" % (got,), replay)
+            elif len(c["regs"]) <= 3 and got in section_mixed_outcomes(c["regs"], reloads, pols_of(c)):
+                ctx.fail("reload-serial:cross-section/covert+phantom", "controlled schedule: final table / announcements %r are not the outcome of any "
+                         "serial order of the ingests and the reload(s); every read section saw one policy in full, but the covert check "
+                         "and the phantom blocklist check of one ingest ran under different configurations" % (got,), replay)
+            else:
+                ctx.fail("not-serializable/reload", "final table / announcements %r are not the outcome of any serial order of the same ingests "
+                         "and configuration reloads, nor of any assignment of complete policies to the read sections" % (got,), replay)
         # shares and counters: one share per detector-sourced owner that got past the probe, no double counting
         owners = sum(1 for e in final if e["obj"] >= 0 and e["valid"])
         if r["stats"]["new"] > owners + 0 and r["stats"]["new"] > len([1 for e in final if e["obj"] >= 0]):
@@ -920,7 +1000,7 @@ def run(ctx):
         return
     cases = gen_sched_cases(ctx)
     for c in cases:
-        c["policies"] = POLICIES
+        c.setdefault("policies", POLICIES)
     js = [dict(c, regs=[reg_json(r) for r in c["regs"]]) for c in cases]
     race_off = os.environ.get("VERIF_C09_RACE") == "0"
     ex = ThreadPoolExecutor(max_workers=4)
@@ -981,7 +1061,7 @@ def run(ctx):
         term_case.append(i)
     ctx.sample({"scenario": {"regs": [reg_json(x) for x in cases[0]["regs"]], "schedule": cases[0]["schedule"]},
                 "observed_last_step": res[0]["steps"][-1] if res[0]["steps"] else None, "events": res[0]["events"]})
-    ctx.require_kinds(["sched/publish-window", "startup/before", "startup/after", "startup/yield", "sched/pair0", "sched/pair+handler", "sched/trio", "sched/mixed", "sched/swept-in-flight",
+    ctx.require_kinds(["sched/publish-window", "startup/before", "startup/after", "startup/yield", "sched/pair0", "sched/pair+handler", "sched/trio", "sched/mixed", "sched/swept-in-flight", "sched/reload-window", "sched/reload-cross-section", "sched/serial-with-reload",
                        "point/after-track", "point/after-covert", "point/probe", "point/end", "point/collected",
                        "point/before-remove", "point/found", "point/disabled", "sweep/removed", "ingest/duplicate",
                        "handler/activated", "distrib/idle", "distrib/busy", "distrib/overload",
